@@ -403,7 +403,7 @@ fn bounds(tier: Tier) -> (usize, usize, usize) {
     // (max depth, depth below which the full alphabet is used, S_max)
     match tier {
         Tier::Quick => (4, 3, 16),
-        Tier::Thorough => (5, 4, 24),
+        Tier::Thorough => (5, 3, 20),
     }
 }
 
@@ -414,7 +414,8 @@ fn op_json(h: &[Op]) -> Value {
 fn explore(ctx: &Ctx) -> Outcome {
     let (max_depth, full_depth, s_max) = bounds(ctx.tier);
     let sys = Sys { inits: init_states(ctx.tier), s_max, full_depth };
-    let rep = bfs::explore(&sys, Some(max_depth), None);
+    // engine-internal memory cap: stop expanding once this many distinct states are stored
+    let rep = bfs::explore(&sys, Some(max_depth), Some(ctx.tier.pick(2_000_000, 6_000_000)));
     // determinism self-check at a small bound: same counts twice
     let a = bfs::explore(&sys, Some(2), None);
     let b = bfs::explore(&sys, Some(2), None);
@@ -428,7 +429,7 @@ fn explore(ctx: &Ctx) -> Outcome {
     cov.traces_validated_against_impl = rep.transitions;
     cov.evaluations = rep.transitions;
     cov.distinct_nontrivial = rep.states;
-    cov.exhaustive = true;
+    cov.exhaustive = rep.depth_completed >= max_depth || rep.fixpoint;
     cov.rule = "explicit-state BFS: node = content of the archive (bytes, strings, pointers, pending c-strings, labels), transition = one real API call on a BinArchive rebuilt by replaying the shortest history; oracle = content model in lock-step (acceptance, every observable, re-parse of the serialized image, image equal to the image of the same content built from scratch); distinct_nontrivial = distinct states reached".into();
     cov.samples = rep.sample_histories.iter().map(|h| json!({"history": op_json(h)})).collect();
     if cov.samples.is_empty() {
